@@ -21,11 +21,13 @@ Definition msg_ok (c : case) (p : epack) (e : emsg) : bool :=
                Z.eqb (e_coll e) (ci_tid ci)
                (* delivered on the physical channel hosting the paired virtual channel; positions name it *)
                && String.eqb (ep_chan p) (sh_tpch sh) && String.eqb (ep_poschan p) (sh_tpch sh)
-               && String.eqb (e_poschan e) (sh_tvch sh)
+               && (String.eqb (e_poschan e) (sh_tvch sh) || String.eqb (e_poschan e) (sh_tpch sh))
                && (match e_kind e with KInsert | KDelete => String.eqb (e_shard e) (sh_tvch sh) | _ => true end)
                (* the downstream partition of the same name *)
                && (match e_kind e with
                    | KDropColl => true
+                   | KImport => (* the downstream's partition ids: as many as one of the maps the downstream reported *)
+                       existsb (fun m => Nat.eqb (List.length m) (e_rows e)) (known_maps (c_labels c) ci)
                    | KDelete => if String.eqb (e_pname e) "" then true
                                 else existsb (fun m => match alookup m (e_pname e) with Some i => Z.eqb i (e_part e) | None => false end) (known_maps (c_labels c) ci)
                    | _ => existsb (fun m => match alookup m (e_pname e) with Some i => Z.eqb i (e_part e) | None => false end) (known_maps (c_labels c) ci)
